@@ -3,7 +3,10 @@
 
 package redis
 
-import "io"
+import (
+	"io"
+	"strconv"
+)
 
 // Re-exports for the verification harness (/verif). Compiled only with -tags verif.
 
@@ -47,3 +50,20 @@ const (
 	VerifMaxArrayLen      = maxArrayLen
 	VerifMaxBulkStringLen = maxBulkStringLen
 )
+
+var verifSlotUpstream *upstream
+
+// VerifChooseSlot routes key with the real upstream.chooseHost over a table in
+// which slot i is owned by an instance whose address is the decimal i, and
+// returns that address.
+func VerifChooseSlot(key []byte) (string, error) {
+	if verifSlotUpstream == nil {
+		u := &upstream{cfg: newConfig(nil)}
+		for i := range u.slots {
+			u.slots[i] = &instance{Addr: strconv.Itoa(i)}
+		}
+		verifSlotUpstream = u
+	}
+	req := newSimpleRequest(newByteArray([]byte("set"), key, []byte("v")))
+	return verifSlotUpstream.chooseHost(key, req)
+}
